@@ -904,6 +904,70 @@ def extra_checks(ctx):
                      f'coordinates sit on a discontinuity under an inexact rotation matrix: {STATS["slice_rows_skipped_float_degenerate"]}')
 
 
+# ---- reflection padding against the Coq model of reflect_coordinates (Model/GridReflect.v) -----------------------------------------
+# The model maps every grid coordinate to the grid coordinate of the reflected and clipped position; sampling there with border padding
+# (whose model is validated by the family above) must reproduce what padding_mode='reflection' returns.
+PRE_REFLECT = 'From MrVerif Require Import Base.Prelude Model.GridSample Model.GridReflect.\nFrom Coq Require Import QArith.'
+
+
+def gen_reflect(rng, tier):
+    cases = []
+    for i in range(12 if tier == 'quick' else 200):
+        dim = 2 + (i % 3 == 2)
+        shape = [rng.randint(2, 5) for _ in range(dim)]
+        nout = rng.randint(2, 5)
+        grid = [rng.choice([rng.randint(-48, 48) / 16, rng.randint(-24, 24) / 8, rng.choice([-1.0, 1.0, -3.0, 3.0, -2.0, 2.0, 1.5, -1.5])]) for _ in range(nout * dim)]
+        cases.append({'dim': dim, 'ac': bool(i % 2), 'shape': shape, 'nout': nout, 'grid': grid, 'x': [rng.randint(-9, 9) for _ in range(prod(shape))]})
+    return cases
+
+
+def _reflect_ops(c, grid_vals, pad):
+    from mrpro.data import SpatialDimension
+    from mrpro.operators import GridSamplingOp
+    dim = c['dim']
+    grid = torch.tensor(grid_vals, dtype=torch.float64).reshape(1, *([1] * (dim - 1)), c['nout'], dim)
+    zyx = [1] * (3 - dim) + list(c['shape'])
+    return GridSamplingOp(grid, SpatialDimension(*zyx), interpolation_mode='bilinear', padding_mode=pad, align_corners=c['ac'])
+
+
+def impl_reflect(c):
+    x = torch.tensor(c['x'], dtype=torch.float64).reshape(1, 1, *c['shape'])
+    (y,) = _reflect_ops(c, c['grid'], 'reflection')(x)
+    return {'y': y.flatten().tolist()}
+
+
+def coq_reflect(c):
+    dim = c['dim']
+    # grid component k addresses tensor axis -(k+1)
+    items = [f'({zlit(c["shape"][dim - 1 - (i % dim)])}, {qlit(g)})' for i, g in enumerate(c['grid'])]
+    # (numerator, denominator) pairs: Coq prints Q numbers with power-of-16 denominators in hexadecimal notation
+    return (f'map (fun p => let q := reflected_grid_coord {vlib.boollit(c["ac"])} (fst p) (snd p) in (Qnum q, Zpos (Qden q))) '
+            f'[{"; ".join(items)}]')
+
+
+def cmp_reflect(c, o, m):
+    if isinstance(o, dict) and 'raises' in o:
+        return f'impl raises {o["raises"]}: {o.get("msg")}'
+    g2 = [float(Fraction(v[0], v[1])) for v in m]
+    x = torch.tensor(c['x'], dtype=torch.float64).reshape(1, 1, *c['shape'])
+    (yb,) = _reflect_ops(c, g2, 'border')(x)
+    yb = yb.flatten().tolist()
+    for k, (a, b) in enumerate(zip(o['y'], yb)):
+        if abs(a - b) > 1e-9 * max(1.0, abs(b)):
+            d = c['dim']
+            return (f'output {k}: padding_mode=reflection at grid {c["grid"][k * d:(k + 1) * d]} gives {a}; the model reflects this position to grid '
+                    f'{g2[k * d:(k + 1) * d]}, where the image (border padding) is {b}')
+    return None
+
+
+def oracle_reflect(c, o):
+    if isinstance(o, dict) and 'raises' in o:
+        return f'valid configuration rejected: {o["raises"]} {o.get("msg")}'
+    # grid locations on pixel centres return the pixel (C20_grid_reflect_on_pixel): checked through the correspondence; nothing else here
+    return None
+
+
+
 FAMILIES = [
     Family('slice_matrix', gen_slice, impl_slice, coq_slice, PRE_SLICE, cmp_slice, oracle_slice,
            nontrivial=lambda c: True, descr=_descr_slice, shard=2, theorem='C20_slice_nonneg, C20_slice_duplicates, C20_slice_rowsum(_inside), C20_slice_axis_aligned_is_weighted_slicing, C20_slice_rect_taps(_built), C20_find_width_rect, C20_find_width_arect'),
@@ -916,4 +980,7 @@ FAMILIES = [
            shard=12, theorem='C20_grid_weights, C20_grid_on_pixel(_3d), C20_grid_identity(_3d), C20_grid_linear(_3d), C20_grid_complex_alike, C20_grid_border, C20_grid_adjoint(_3d)'),
     Family('grid_sampling_oracles', gen_grid_oracle, impl_grid_oracle, None, '', None, oracle_grid_oracle,
            theorem='(implementation-level: identity grid, re/im alike, adjointness for all modes incl. bicubic/reflection)'),
+    Family('grid_reflection', gen_reflect, impl_reflect, coq_reflect, PRE_REFLECT, cmp_reflect, oracle_reflect,
+           descr=lambda c: {'dim': c['dim'], 'ac': c['ac'], 'pad': 'reflection'}, shard=12,
+           theorem='C20_grid_reflect_range, C20_grid_reflect_fixed, C20_grid_reflect_even, C20_grid_reflect_on_pixel'),
 ]
